@@ -16,7 +16,8 @@ def wl_id(spec, opts):
 def base_workloads(tier, rng, n_random=0, profile="small"):
     """a few fixed, feature-rich workloads + seeded random ones"""
     wls = [
-        ({"seed": 11, "n_chr": 3, "groups": 3, "paralogs": 1, "novel": 1, "antisense": 1},
+        ({"seed": 11, "n_chr": 3, "groups": 3, "paralogs": 1, "novel": 2, "antisense": 1, "readthrough": 2, "intergenic_multi": 2,
+          "long_locus": 1},
          {"read_group": "tag", "count_exons": True}),
         ({"seed": 12, "n_chr": 4, "groups": 12, "group_missing": 5, "paralogs": 2, "novel": 2, "n_bams": 2,
           "dup_records": 1, "equal_len": 1, "pre_ids": 1},
